@@ -18,7 +18,7 @@ MANIFEST = dict(
          "for pipelines of any length and any numbering of the fresh ids; (iii) on the mirror of compile_relation_instance (Model.CteOrder): "
          "table_refs_are_defined_earlier (for every ranked structure of relation bodies, any prefer_cte / allow_ctes flags and any nesting of "
          "sub-queries and CTEs, a relation is referenced by name only if it is a database table or a CTE already pushed to the WITH list - "
-         "hence defined earlier than the CTE containing the reference), no_relation_is_defined_twice (the WITH list has no repetition, for any structure); (iv) on the mirror of the positional mapper of set operations (Model.Positional): stored_mapping_reprojects_before_to_after (the mapping stored for the bottom of a UNION / EXCEPT / INTERSECT re-projects the columns the top had at the set operation to the columns it keeps after the split: same count, same order, lists of any length), incomplete_mapping_is_not_stored, stored_mapping_is_not_overwritten, activate_takes_the_mapping / activate_without_mapping_resets (a mapping is used by the one relation it was stored for and never leaks into the next), constraints_hold_only_selected_columns (inlined helper columns do not count as columns of the top). Ties: every recorded call of the positional mapper is replayed through the mirror; set operations whose top is pruned / reordered around them (chained derives, double appends) are bound on SQLite; the recorded nesting of every compilation is replayed through "
+         "hence defined earlier than the CTE containing the reference), no_relation_is_defined_twice (the WITH list has no repetition, for any structure); (iv) on the mirror of the positional mapper of set operations (Model.Positional): reprojection_keeps_the_branches_aligned (if the bottom lists its columns position by position like the top did at the set operation, then after re-projection it lists under every column the top keeps the column that stood under it: the branches stay aligned), stored_mapping_reprojects_before_to_after (the mapping stored for the bottom of a UNION / EXCEPT / INTERSECT re-projects the columns the top had at the set operation to the columns it keeps after the split: same count, same order, lists of any length), incomplete_mapping_is_not_stored, stored_mapping_is_not_overwritten, activate_takes_the_mapping / activate_without_mapping_resets (a mapping is used by the one relation it was stored for and never leaks into the next), constraints_hold_only_selected_columns (inlined helper columns do not count as columns of the top). Ties: every recorded call of the positional mapper is replayed through the mirror; set operations whose top is pruned / reordered around them (chained derives, double appends) are bound on SQLite; the recorded nesting of every compilation is replayed through "
          "Model.CteOrder (reference by name / sub-query / CTE pushed, in order); every call of extract_atomic "
          "made while compiling the corpus is recorded (cargo feature verif) and replayed through the Lean mirror - rest / missing / "
          "Select / kept transforms / fresh ids / redirected pipeline must agree exactly - and the executable scope predicates are "
@@ -153,7 +153,7 @@ def run(ctx):
                             "preceding_is_wellformed", "table_refs_are_defined_earlier", "no_relation_is_defined_twice",
                             "stored_mapping_reprojects_before_to_after", "incomplete_mapping_is_not_stored", "stored_mapping_is_not_overwritten",
                             "activate_takes_the_mapping", "activate_without_mapping_resets", "constraints_hold_only_selected_columns",
-                            "set_quantifier_rules", "dialects_without_union_distinct"])
+                            "set_quantifier_rules", "dialects_without_union_distinct", "reprojection_keeps_the_branches_aligned"])
     ctx.rule = ("(i) take chains x {sorted, unsorted} x 12 dialects: LIMIT/OFFSET/FETCH/ORDER BY filler of the real SQL vs the Lean clause "
                 "mirror; (ii) every accepted program of the corpus x 12 dialects parsed with sqlparser's dialect grammar (one statement); "
                 "(iii) generated relational programs executed on SQLite (sqlite and generic targets); a case = (program, dialect); "
